@@ -121,6 +121,34 @@ class SelProblem(object):
             return None
         return {_t(p): v for p, v in self.overrides}
 
+    # -- drop_level (independent of TaxonomyTree.drop_level) --
+    def droppable_levels(self):
+        return list(self.tree['hierarchy'][:-1])
+
+    def reduced(self, level):
+        """the same table on the taxonomy with `level` removed: a node of the
+        level above adopts the children of its children"""
+        h = self.tree['hierarchy']
+        if level not in h[:-1]:
+            return self
+        i = h.index(level)
+        tree = {k: ({n: list(c) for n, c in v.items()}
+                    if isinstance(v, dict) else list(v))
+                for k, v in self.tree.items() if k != level}
+        tree['hierarchy'] = [l for l in h if l != level]
+        if i > 0:
+            up = h[i - 1]
+            for node, kids in self.tree[up].items():
+                merged = []
+                for k in kids:
+                    merged += list(self.tree[level][k])
+                tree[up][node] = merged
+        out = SelProblem(tree, self.ref_genes, self.up, self.down,
+                         self.query, self.n_per, self.overrides, None,
+                         self.label)
+        out.dtype_mode = getattr(self, 'dtype_mode', 'int64')
+        return out
+
     # -- independent census --
     def leaf_ancestors(self):
         """leaf -> {level: ancestor at that level}"""
@@ -681,23 +709,44 @@ def leaves_order(prob, tt, parent):
     return out
 
 
-def run_select_all(prob, ref_path, tt, n_processors, cutoff, tmp_dir):
+class SharedArgs(object):
+    """the argument objects handed, as the SAME objects, to every call made
+    for one problem; `changed()` names those a call has modified"""
+
+    def __init__(self, prob):
+        import copy
+        self.query = list(prob.query)
+        self.override = prob.override_dict()
+        self.parent_list = None if prob.parent_list is None \
+            else prob.parents()
+        self._snap = copy.deepcopy(
+            (self.query, self.override, self.parent_list))
+
+    def changed(self):
+        now = (self.query, self.override, self.parent_list)
+        return [nm for nm, a, b in zip(
+            ('query_gene_names', 'n_per_utility_override', 'parent_list'),
+            now, self._snap) if a != b]
+
+
+def run_select_all(prob, ref_path, tt, n_processors, cutoff, tmp_dir,
+                   shared=None):
     """-> ('ok', {parent: [names]}, {parent_key: log}) or (err, None, None)"""
     from cell_type_mapper.marker_selection.selection_pipeline import (
         select_all_markers)
+    shared = shared or SharedArgs(prob)
     try:
         with silent():
             out, log = select_all_markers(
                 marker_cache_path=ref_path,
-                query_gene_names=list(prob.query),
+                query_gene_names=shared.query,
                 taxonomy_tree=tt,
                 n_per_utility=prob.n_per,
                 n_processors=n_processors,
                 behemoth_cutoff=cutoff,
                 genes_at_a_time=1,
-                n_per_utility_override=prob.override_dict(),
-                parent_list=None if prob.parent_list is None
-                else prob.parents(),
+                n_per_utility_override=shared.override,
+                parent_list=shared.parent_list,
                 tmp_dir=str(tmp_dir))
     except BaseException as e:   # noqa
         if isinstance(e, KeyboardInterrupt):
@@ -706,22 +755,25 @@ def run_select_all(prob, ref_path, tt, n_processors, cutoff, tmp_dir):
     return 'ok', {k: list(v) for k, v in out.items()}, dict(log)
 
 
-def run_ref_list(prob, ref_path, n_processors, cutoff, tmp_dir):
+def run_ref_list(prob, ref_path, n_processors, cutoff, tmp_dir,
+                 shared=None, drop_level=None):
     """create_marker_gene_lookup_from_ref_list (reads the tree from the
     stats file named in the reference file's metadata)"""
     from cell_type_mapper.type_assignment.marker_cache_v2 import (
         create_marker_gene_lookup_from_ref_list)
+    shared = shared or SharedArgs(prob)
     try:
         with silent():
             res = create_marker_gene_lookup_from_ref_list(
                 reference_marker_path_list=[str(ref_path)],
-                query_gene_names=list(prob.query),
+                query_gene_names=shared.query,
                 n_per_utility=prob.n_per,
-                n_per_utility_override=prob.override_dict(),
+                n_per_utility_override=shared.override,
                 n_processors=n_processors,
                 behemoth_cutoff=cutoff,
                 genes_at_a_time=1,
-                tmp_dir=str(tmp_dir))
+                tmp_dir=str(tmp_dir),
+                drop_level=drop_level)
     except BaseException as e:   # noqa
         if isinstance(e, KeyboardInterrupt):
             raise
